@@ -300,6 +300,33 @@ fn exec_pair(input: &str, a: &'static Unit, b: &'static Unit, out: &mut CaseOut)
         }
     }
 
+    // the same four operators where the result leaves the finite range (overflow of a sum, a difference, a product;
+    // division by a zero quantity; 0/0) or underflows: whether and which unit the result carries does not depend on
+    // the magnitudes
+    for (x, y) in [(1.7e308, 1.7e308), (-1.7e308, 1.7e308), (1.0e200, 1.0e200), (5.0, 0.0), (0.0, 0.0), (-3.0, -0.0), (1.0e-300, 1.0e300), (f64::MIN_POSITIVE, 0.5)] {
+        let (pa, pb) = (Number { value: x, unit: Some(a) }, Number { value: y, unit: Some(b) });
+        let unit_of = |r: &Result<Number, String>| -> Option<Option<&'static str>> { r.as_ref().ok().map(|n| n.unit.map(|u| u.name())) };
+        let same_val = |got: f64, want: f64| (got.is_nan() && want.is_nan()) || got == want;
+        for (kind, got, ref_res, want) in [
+            ("add_unit", pa + pb, &add, x + y),
+            ("sub_unit", pa - pb, &sub, x - y),
+            ("nmul_sound", pa * pb, &nm, x * y),
+            ("ndiv_sound", pa / pb, &nd, x / y),
+        ] {
+            if unit_of(&got) != unit_of(ref_res) {
+                out.fail(
+                    kind,
+                    format!("{x}{an} and {y}{bn}: the result is {:?}, with the magnitudes {X} and {Y} it is {:?} (Ok/Err and the unit must not depend on the magnitudes)", unit_of(&got), unit_of(ref_res)),
+                );
+            }
+            if let Ok(n) = &got {
+                if !same_val(n.value, want) {
+                    out.fail(kind, format!("{x}{an} and {y}{bn}: value {} instead of {want}", n.value));
+                }
+            }
+        }
+    }
+
     out.req(
         format!("C16 pair {an} {bn}"),
         format!(
